@@ -114,7 +114,26 @@ func (s *Sim) Delay(key string, lo, hi time.Duration) time.Duration {
 }
 
 // Sleep parks the calling goroutine for the keyed delay.
-func (s *Sim) Sleep(key string, lo, hi time.Duration) { time.Sleep(s.Delay(key, lo, hi)) }
+func (s *Sim) Sleep(key string, lo, hi time.Duration) {
+	d := s.Delay(key, lo, hi)
+	if s.UnderStdMutex() {
+		return // rule R3, enforced dynamically: never park while a standard mutex is held
+	}
+	time.Sleep(d)
+}
+
+// UnderStdMutex reports whether some goroutine currently holds a standard
+// mutex of the instrumented packages (tools/lockinject). A seam that is about
+// to park checks it: parking then could stall the bubble (a goroutine blocked
+// on that mutex is not durably blocked and the fake clock would stop). With
+// every seam checking, a stalled bubble is never the harness's doing.
+func (s *Sim) UnderStdMutex() bool {
+	if heldNow() == 0 {
+		return false
+	}
+	s.Count("probe.seam_park_skipped_under_std_mutex", 1)
+	return true
+}
 
 // Chance is a keyed coin flip.
 func (s *Sim) Chance(key string, p float64) bool {
